@@ -90,7 +90,10 @@ let suite_rt (t : toks) : string =
   | Ok (segs, _) ->
     let bytes = flat segs in
     let b = Buffer.create 256 in
-    Buffer.add_string b ("W " ^ hex_of_bytes bytes ^ " Z " ^ string_of_z (zc_len segs));
+    let lstr = (match len_vals p vs w0 with
+        | Ok (n, _) -> string_of_z n
+        | (Err _ | Panic _) as r -> show_res_err r) in
+    Buffer.add_string b ("W " ^ hex_of_bytes bytes ^ " Z " ^ string_of_z (zc_len segs) ^ " L " ^ lstr);
     let input = bytes @ rest in
     let fuel = nat_of_int (List.length input + 2) in
     let tys = List.map (fun v -> match v with
